@@ -346,4 +346,9 @@ def r6_setters(F, R):
     roles.check_all_builder_setters(F, R, only=r"^max_concurrent_scenarios$", floor=2)
 
 
-RULES = [("R1", r1, None), ("R2", r2, None), ("R3", r3, None), ("R4", r4, None), ("R5", r5, None), ("R6", r6_setters, None)]
+def r7_cli(F, R):
+    """`--concurrency` is declared and read into `Cli.concurrency`."""
+    roles.check_cli_surface(F, R, "runner::basic::Cli", only=r"^concurrency$")
+    R.floor(1)
+
+RULES = [("R1", r1, None), ("R2", r2, None), ("R3", r3, None), ("R4", r4, None), ("R5", r5, None), ("R6", r6_setters, None), ("R7", r7_cli, None)]
